@@ -15,6 +15,11 @@ CLAIMED = {
    text='Proof. Over any linearly ordered field: for non-negative fractions summing to 1 and 0<T<1, T2t returns the unique segment whose half-open cumulative interval contains T, that segment has positive length (zero-length non-leading segments are never selected), 0<t<=1, t2T maps (k,t) back to T exactly, Path.point evaluates exactly the (k,t) of T2t, the shortcuts at 0 and 1 are the first/last segment; BugException is unreachable. Law-free (decidable equality only): iscontinuous is the chain of end=start coincidences, continuous_subpaths concatenates back to the path and every piece is continuous. The model is run against the real Path methods on exact Fractions (stub segments) and real Lines every run; a float sampler covers rounding, all segment kinds and item-assignment histories.',
    note='Trusted: Lean kernel + standard axioms; the correspondence runner; segment lengths are inputs (C06). Not proved: float rounding of the partial sums (T within an ulp of 1 can fall through); maximality of the subpaths is checked by correspondence and sampling, the Lean theorem covers concatenation and continuity of the pieces.',
    ref='7 C05'),
+ 'C07': dict(
+   technique='Lean 4 proof: the bisection of inv_arclength modelled over an arbitrary finite grid with uninterpreted midpoint (totality by a strictly decreasing interior count), exact-arithmetic lemmas for the range check/shortcuts/Line branch; model tied by exact Fraction correspondence and a bit-exact IEEE run of the stall regime',
+   text='Proof. bisect_total: on ANY finite linear order of parameter values (in particular the doubles), for ANY length function, target and tolerance, if the midpoint stays inside its interval the repaired loop returns by the tolerance or the stall exit and never reaches the raise after maxits (budget > number of grid points between the ends); bisect_ret_close: a tolerance exit has |s(t)-s| < s_tol; bisect_range: the result lies between the ends; the pre-repair loop is refuted (for every n it runs to maxits on a two-point grid). Over any ordered field: s outside [0,L] gives ValueError, ilength(0)=0, ilength(L)=1, on Lines t=s/L is in [0,1], inverts the length exactly and is monotone. The model (segment, Line and Path branches incl. boundary values) is executed against the real inv_arclength on exact Fraction stubs, and the Float instance of the same definition is compared bit-for-bit with the real loop in the regime where the interval shrinks to adjacent doubles.',
+   note='Trusted: kernel + standard axioms; correspondence runner; curve.length is an input (C06). Not proved: that IEEE halving needs < maxits iterations (exercised bit-exactly, ~1100 steps); monotonicity and the inverse relation for curves rest on a monotone length function and are sampled on real curves at scales 1e-3..1e6.',
+   ref='7 C07'),
  'C09': dict(
    technique='Lean 4 proof: ring/field identities on reversed/split/cropped traced from path.py (regenerated each run); hand model of Path.cropped index logic tied by exact Fraction correspondence, defect witnesses by kernel evaluation',
    text='Proof. For Line/Quadratic/Cubic: reversed().point(u)=point(1-u) and reversed control points; split(t) pieces are the restrictions to [0,t],[t,1] and meet at point(t); cropped(0,t1), cropped(t0,1) and interior cropped(t0,t1) are point(t0+u(t1-t0)) (field identity, 1-t0 != 0), all as polynomial identities over any field of characteristic 0 on definitions regenerated from the running code. Path.reversed: order/involution/length lemmas. Path.cropped: hand model (T2t lookups, isclose snaps, three assembly branches, wrap-around) executed against the real method on stub segments with exact Fraction lengths (incl. equal segments, joints, T within 1e-10 of joints); the pre-repair behaviour for T1=0 is refuted by a kernel-checked witness. Sampler on real segments/paths of all four kinds incl. arcs.',
